@@ -441,6 +441,11 @@ Definition dec_case (r : rawcase) : case :=
   let '(ps, tr, tl) := r in
   {| c_progs := map dec_prog ps; c_trace := map dec_obs tr; c_tail := map dec_obs tl |}.
 
+(* typed constructors: the generated case files elaborate much faster with them *)
+Definition E (t k a c m : N) : rawev := (t, k, a, c, m).
+Definition P (k a : N) : N * N := (k, a).
+Definition C (ps : list (N * N)) (tr tl : list rawev) : rawcase := (ps, tr, tl).
+
 Definition check_all (cases : list rawcase) : list verdict :=
   check_cases (fun r => check_case (dec_case r)) cases.
 
